@@ -88,7 +88,7 @@ func genOp(t *rapid.T) Op {
 }
 
 func genCase(t *rapid.T) Case {
-	if den := uint64(3000); gen.Chance(t, "giant", 1, den) {
+	if den := uint64(1200); gen.Chance(t, "giant", 1, den) {
 		// sizes the format allows and the other cases never reach: any certificate size, any count, any total
 		return Case{Giant: rapid.IntRange(1, 3).Draw(t, "giantkind")}
 	}
